@@ -253,10 +253,81 @@ def make_case(rnd):
 
 def plan(tier):
     n = 250 if tier == 'quick' else 4000
-    return [dict(n=n) for _ in range(16)]
+    return [dict(n=n, index=i) for i in range(16)]
 
 
-def run_shard(sh, n):
+def scope_templates():
+    """EXHAUSTIVE family for the scopes in which names are pre-defined: a body B with two differently named parts, under a wrapper W, at a
+    position P of a rule.  The model pre-defines every name of the option being parsed; the generated parser must define the same keys."""
+    x, y = ('tok', 'x'), ('tok', 'y')
+    bodies = {
+        'alt(a:x|b:y)': ('alt', (('named', 'a', x), ('named', 'b', y))),
+        'alt(a:x|b+:y)': ('alt', (('named', 'a', x), ('namedl', 'b', y))),
+        'seq(a:x [b:y])': ('seq', (('named', 'a', x), ('opt', ('named', 'b', y)))),
+        'alt(a:x z|b:y)': ('alt', (('seq', (('named', 'a', x), ('tok', 'z'))), ('named', 'b', y))),
+        'alt(a:x|(b:y|c:z))': ('alt', (('named', 'a', x), ('grp', ('alt', (('named', 'b', y), ('named', 'c', ('tok', 'z'))))))),
+        'a:(x|y)': ('named', 'a', ('alt', (x, y))),
+    }
+    wrappers = {
+        'none': lambda b: b, 'opt': lambda b: ('opt', b), 'grp': lambda b: ('grp', b), 'star': lambda b: ('star', b), 'plus': lambda b: ('plus', b),
+        'opt-grp': lambda b: ('opt', ('grp', b)), 'join': lambda b: ('join', ('tok', ','), b, False, False), 'gather+': lambda b: ('join', ('tok', ','), b, True, True),
+        'opt-opt': lambda b: ('opt', ('opt', b)),
+    }
+    positions = {
+        'whole-body': lambda e: [('start', e)],
+        'first-of-seq': lambda e: [('start', ('seq', (e, ('tok', ';'))))],
+        'second-of-seq': lambda e: [('start', ('seq', (('tok', '<'), e)))],
+        'option-of-choice': lambda e: [('start', ('alt', (e, ('named', 'q', ('tok', 'q')))))],
+        'second-option': lambda e: [('start', ('alt', (('named', 'q', ('tok', 'q')), e)))],
+        'called-rule': lambda e: [('start', ('seq', (('named', 'r', ('call', 'sub')), ('tok', ';')))), ('sub', e)],
+    }
+    inputs = ['x', 'y', '', 'x z', 'z', 'x y', 'x,y', 'y,x', 'q', 'x x']
+    for bn, b in bodies.items():
+        for wn, w in wrappers.items():
+            for pn, pos in positions.items():
+                rules = pos(w(b))
+                texts = []
+                for t in inputs:
+                    t2 = ('< ' + t) if pn == 'second-of-seq' else (t + ' ;') if pn in ('first-of-seq', 'called-rule') else t
+                    texts.append(t2)
+                yield f'{bn} / {wn} / {pn}', rules, texts
+
+
+def run_templates(sh, index, nshards):
+    """every scope template (no random choice): model vs generated parser on a fixed battery, default settings, with and without tagging"""
+    n = 0
+    complete = True
+    for k, (label, rules, texts) in enumerate(scope_templates()):
+        if k % nshards != index:
+            continue
+        if sh.out_of_budget():
+            complete = False
+            break
+        reset_tatsu_state()
+        gtext = build(rules, [], [], {})
+        cache = {}
+        try:
+            for text in texts:
+                for tagging in (False, True):
+                    d, info = check(gtext, 'start', text, {}, tagging, cache)
+                    if info.get('skip'):
+                        sh.note('skipped: ' + info['skip'])
+                        continue
+                    n += 1
+                    sh.case((gtext, text, 'templates', tagging), info.get('model') in ('ok', 'fail'), ['scope-template', 'scope-template:' + label.split(' / ')[1],
+                            'scope-position:' + label.split(' / ')[2], f'model:{info.get("model")}'], sample=dict(template=label, grammar=gtext, input=text, tagging=tagging))
+                    if d is not None:
+                        sh.fail(d['bucket'], dict(rules=rules, directives=[], keywords=[], ruleinfo={}, start='start', input=text, settings={}, tagging=tagging,
+                                                  history=[list(h) for h in cache.get('hist', [])[:-1]]), d)
+        finally:
+            if cache.get('mod') is not None:
+                tu.unload(cache['mod'])
+    sh.exhaustive['scope templates: 6 bodies x 9 wrappers x 6 positions x 10 inputs x {no semantics, tagging}'] = complete
+
+
+def run_shard(sh, n, index=0):
+    run_templates(sh, index, 16)
+
     def body(rnd):
         reset_tatsu_state()
         rules, directives, keywords, ruleinfo, start = make_case(rnd)
